@@ -109,6 +109,15 @@ class C06(E1Check):
                 for gates in itertools.product((False, True), repeat=3):
                     for api in (("method", "shortcut"), ("inject", "method")):
                         progs.append({"kind": "multi", "order": order, "pubs": list(pubs), "gates": list(gates), "apis": list(api), "small": False})
+        # the awaited type is a generic alias (equal but not identical at the two call sites)
+        for order in ("wp", "pw"):
+            for wg, pg in ((False, False), (False, True), (True, False)):
+                for api in ("method", "shortcut", "inject"):
+                    progs.append({"kind": "generic", "order": order, "wgate": wg, "pgate": pg, "api": api, "small": True})
+        # an unrelated subscriber of the surrounding context's resource_added signal with a full queue, subscribed first
+        for order in ("wp", "pw"):
+            for n_noise in (0, 2):
+                progs.append({"kind": "audit", "order": order, "noise": n_noise, "small": True})
         # two tolerant waiters and an async factory whose first call fails (behind a gate) while the other waiter is parked on it
         for order in ("wwp", "pww", "wpw"):
             for g in (False, True):
@@ -156,6 +165,17 @@ class C06(E1Check):
             if p["where"] == "prepare":
                 # not remapped: lands under "default"; a later matching publication releases the waiter
                 pub["start"] = [("add", "RA", "n", "late-match")] if False else None
+            kids = [w, pub] if p["order"] == "wp" else [pub, w]
+        elif kind == "generic":
+            w = {"alias": "w", "children": [], "prepare": None,
+                 "start": ([("gate", "w")] if p["wgate"] else []) + [("get", "RG", "n", p["api"], False, "w")]}
+            pub = {"alias": "p", "children": [], "prepare": None,
+                   "start": ([("gate", "p0")] if p["pgate"] else []) + [("add", "RG", "n", "generic-pub")]}
+            kids = [w, pub] if p["order"] == "wp" else [pub, w]
+        elif kind == "audit":
+            w = waiter("w", "start", False, "shortcut")
+            steps3: list = [("gate", "p")] + [("add", "RB", f"noise{i}", f"noise{i}") for i in range(p["noise"])] + [("add", "RA", "n", "wanted")]
+            pub = {"alias": "p", "children": [], "prepare": None, "start": steps3}
             kids = [w, pub] if p["order"] == "wp" else [pub, w]
         elif kind == "flaky":
             def tol(alias: str) -> dict:
@@ -206,14 +226,14 @@ class C06(E1Check):
         return {"alias": "", "children": kids, "prepare": None, "start": None}
 
     def has_match(self, p: dict) -> bool:
-        if p["kind"] in ("multi", "burst", "flaky"):
+        if p["kind"] in ("multi", "burst", "flaky", "generic", "audit"):
             return True
         if p["kind"] == "alias":
             return p["where"] == "start"
         return any(MENU[i][0] for i in p["seq"])
 
     def deadlock_ok(self, program: Any) -> bool:
-        return program["kind"] in ("basic", "alias", "two", "multi", "burst", "flaky") and not self.has_match(program)
+        return program["kind"] in ("basic", "alias", "two", "multi", "burst", "flaky", "generic", "audit") and not self.has_match(program)
 
     async def main(self, env: Any, program: dict) -> None:
         from asphalt.core import Context, ResourceNotFound, start_component
@@ -241,6 +261,19 @@ class C06(E1Check):
                         await start_component(tree.root_class, {}, timeout=None)
                     except BaseException as e:  # noqa: BLE001
                         env.log("start-exc", type(e).__name__, str(e)[:200])
+            elif program["kind"] == "audit":
+                import warnings
+
+                # somebody else listens to the surrounding context with a one-slot queue and never reads
+                async with ctx.resource_added.stream_events(max_queue_size=1):
+                    ctx.add_resource(RB("filler"), "filler")
+                    with warnings.catch_warnings():
+                        warnings.simplefilter("ignore")
+                        try:
+                            await start_component(tree.root_class, {}, timeout=None)
+                            env.log("returned")
+                        except BaseException as e:  # noqa: BLE001
+                            env.log("start-exc", type(e).__name__, str(e)[:200])
             else:
                 try:
                     await start_component(tree.root_class, {}, timeout=None)
@@ -254,7 +287,7 @@ class C06(E1Check):
     def match_label(ev: tuple, want: tuple = WANT) -> str | None:
         """label the waiter for ``want`` must receive if this publication event matches it"""
         wt, wn = want
-        covers = {"RA": ("RA", "RAB", "RAF"), "RB": ("RB", "RAB")}[wt]
+        covers = {"RA": ("RA", "RAB", "RAF"), "RB": ("RB", "RAB"), "RG": ("RG",)}[wt]
         if ev[0] == "added" and ev[5] == "alias-pub":
             return ev[5] if (ev[2] == "start" and wn == "n" and wt == "RA") else None
         if ev[0] == "added" and ev[4] == wn and ev[3] in covers:
@@ -351,8 +384,8 @@ class C06(E1Check):
                 else:
                     fail("false-failure", f"waiter {who} failed with {ev[2]} (matching publication index {match_idx})")
         # completion: with a matching publication every waiter returns and start-up completes
-        if kind in ("basic", "alias", "two", "multi", "burst"):
-            waiters = {"basic": ["w"], "alias": ["w"], "two": ["w1", "w2"], "multi": ["wa", "wb"], "burst": ["w"]}[kind]
+        if kind in ("basic", "alias", "two", "multi", "burst", "generic", "audit"):
+            waiters = {"basic": ["w"], "alias": ["w"], "two": ["w1", "w2"], "multi": ["wa", "wb"], "burst": ["w"], "generic": ["w"], "audit": ["w"]}[kind]
             if self.has_match(program):
                 for w in waiters:
                     if not any(ev[0] == "get-" and ev[1] == w for ev in tr):
